@@ -7,6 +7,8 @@ import sys
 
 VERIF = os.path.dirname(os.path.dirname(os.path.abspath(__file__)))
 REPO = os.path.realpath(os.environ.get("VERIF_REPO", "/repo"))
+# where evidence/ and found/ are written; only development tooling (mutant matrix, differential searches) redirects it
+OUT = os.path.realpath(os.environ.get("VERIF_OUT", VERIF))
 # The only hook guard this framework knows about; no repository hook exists (see DESIGN.md section 1).
 os.environ.setdefault("DOCTRANS_VERIF", "1")
 
